@@ -110,6 +110,26 @@ class Validator:
                         return f"zx-wires-not-mapped-back:{name}"
                 except Exception:  # noqa: BLE001
                     pass
+        if name == "unitary_to_rot":
+            # the pass synthesises 4x4 QubitUnitary gates with two_qubit_decomposition, whose CNOT-class detection loses accuracy near
+            # the class boundaries (C14 'boundary-loss:two_qubit'): name it when replacing every 2-wire QubitUnitary of the OUTPUT's
+            # synthesis by the exact matrix (i.e. leaving them un-synthesised) removes the discrepancy
+            try:
+                ops_in = list(self._cur_tape.operations)
+                if any(type(o).__name__ == "QubitUnitary" and len(o.wires) == 2 for o in ops_in):
+                    import pennylane as _qp
+                    ok = True
+                    for o in ops_in:
+                        if type(o).__name__ == "QubitUnitary" and len(o.wires) == 2:
+                            dec = _qp.ops.two_qubit_decomposition(np.asarray(o.data[0]), wires=o.wires)
+                            Ud, _ = tv.unitary(list(dec), list(o.wires))
+                            Ue, _ = tv.unitary([o], list(o.wires))
+                            if tv.udist(Ud, Ue) > tol:
+                                ok = False
+                    if not ok:
+                        return "unitary_to_rot:two-qubit-synthesis-boundary-loss"
+            except Exception:  # noqa: BLE001
+                pass
         if n <= 5:
             for perm in itertools.permutations(range(n)):
                 if list(perm) == list(range(n)):
